@@ -248,6 +248,8 @@ struct MAsync {
 pub struct Monitor {
     /// upper bound on timer-wheel entries left behind by composites whose insertion failed half-way
     ghost_timers: usize,
+    /// largest number of source-list slots ever needed at once (occupied + the one an insertion attempt takes)
+    peak_slots: usize,
     disp_reg_failed: bool,
     disp_timeout_ms: u32,
     disp_synth_promised: bool,
@@ -322,6 +324,7 @@ impl Monitor {
     pub fn new() -> Self {
         Monitor {
             ghost_timers: 0,
+            peak_slots: 0,
             disp_reg_failed: false,
             disp_timeout_ms: 0,
             disp_synth_promised: false,
@@ -1543,6 +1546,11 @@ impl Monitor {
                 None
             }
             Ev::Op(rop) => {
+                if matches!(rop, ROp::Insert { .. } | ROp::InsertBad { .. } | ROp::Adapt { .. }) {
+                    // every insertion attempt needs one slot on top of the occupied ones (whether it succeeds or not)
+                    let occ = self.srcs.iter().filter(|m| m.st == St::Inserted).count() + self.asyncs.iter().filter(|a| a.live).count();
+                    self.peak_slots = self.peak_slots.max(occ + 1);
+                }
                 if self.cur_op.is_some() {
                     // nested: an Insert performed by Recycle after Unwrap finished, or ops are strictly bracketed
                     return None;
@@ -2258,7 +2266,7 @@ impl Monitor {
                 }
                 None
             }
-            Ev::Stats { occupied, lifecycle_len, lifecycle_distinct, heap, pending_continue, .. } => {
+            Ev::Stats { slots, occupied, lifecycle_len, lifecycle_distinct, heap, pending_continue, .. } => {
                 if self.in_disp {
                     return None;
                 }
@@ -2283,6 +2291,15 @@ impl Monitor {
                         "C06.release",
                         &["C06", "C15"],
                         format!("loop has {occupied} occupied slots, model has {want_occ} inserted sources and live adapters"),
+                    );
+                }
+                // the source list reuses its first vacant slot, so it is never longer than the largest number of slots
+                // that were needed at the same time: a longer list means slots that are never handed out again
+                if *slots > self.peak_slots {
+                    return viol(
+                        "C15.slots",
+                        &["C15", "C06"],
+                        format!("the source list has {slots} slots although at most {} were ever needed at once ({occupied} occupied now): slots leaked", self.peak_slots),
                     );
                 }
                 let want_lc = self.srcs.iter().filter(|m| m.lifecycle && m.st == St::Inserted && m.enabled).count();
